@@ -110,7 +110,6 @@ func (t *Trie) GetRangeProof(leftKey, rightKey *felt.Felt, proofSet *ProofNodeSe
 func VerifyProof(root, key *felt.Felt, proof *ProofNodeSet, hash crypto.HashFn) (felt.Felt, error) {
 	keyBits := new(Path).SetFelt(contractClassTrieHeight, key)
 	expected := *root
-	h := newHasher(hash, false)
 
 	for {
 		node, ok := proof.Get(expected)
@@ -118,12 +117,11 @@ func VerifyProof(root, key *felt.Felt, proof *ProofNodeSet, hash crypto.HashFn) 
 			return felt.Zero, fmt.Errorf("proof node not found, expected hash: %s", expected.String())
 		}
 
-		nHash, _ := h.hash(node)
-
-		// Verify the hash matches
-		hashVal := felt.Felt(*nHash.(*trienode.HashNode))
+		// Recompute the hash from the node's content. A hash cached on the node (Flags.Hash)
+		// is part of the untrusted proof and must not be used here.
+		hashVal := node.Hash(hash)
 		if !hashVal.Equal(&expected) {
-			return felt.Zero, fmt.Errorf("proof node hash mismatch, expected hash: %s, got hash: %s", expected.String(), nHash.String())
+			return felt.Zero, fmt.Errorf("proof node hash mismatch, expected hash: %s, got hash: %s", expected.String(), hashVal.String())
 		}
 
 		child := get(node, keyBits, false)
